@@ -159,7 +159,7 @@ def r171(ctx, repo):
 
 
 def r172(ctx, repo):
-    uh = repo.func(CA, "Cache._update_hash")
+    uh = inline_helpers(repo, CA, repo.func(CA, "Cache._update_hash"))
     arg = uh.args.args[1].arg
     nd = [n for n in walk(uh) if isinstance(n, ast.If)
           and "np.ndarray" in txt(n.test) and "isinstance" in txt(n.test)]
@@ -474,7 +474,7 @@ def r175(ctx, repo):
     ctx.ob("R17.5", resolved, "the key contains the resolved path" if
            resolved else "the key path is not resolved (relative paths "
            "alias after chdir)", node=c, label="key resolved path")
-    st = txt(statv) if statv is not None else ""
+    st = expand_locals(w, statv) if statv is not None else ""
     for need in ("st_mtime_ns", "st_size"):
         ok = need in st
         ctx.ob("R17.5", ok, f"the key contains {need}" if ok else
